@@ -6,7 +6,7 @@ VERIF = "/verif"
 REPO = "/repo"
 BUILD = f"{VERIF}/.build"
 COQ = f"{VERIF}/coq"
-HARNESS_DEBUG = f"{BUILD}/target/debug/rrss-verif-harness"
+HARNESS_DEBUG = os.environ.get("VERIF_HARNESS_DEBUG") or f"{BUILD}/target/debug/rrss-verif-harness"   # override: tools/coverage.sh only
 HARNESS_RELEASE = f"{BUILD}/target/release/rrss-verif-harness"
 DRIVER = f"{BUILD}/ocaml/driver"
 RRSS_BIN_DEBUG = f"{BUILD}/target/debug/rrss"
@@ -138,6 +138,8 @@ def print_assumptions(module, names):
 def build_harness():
     """Rebuilds the implementation from /repo's working tree (debug and release) plus the harness."""
     os.makedirs(BUILD, exist_ok=True)
+    if os.environ.get("VERIF_SKIP_BUILD") == "1":      # tools/coverage.sh: binaries were built by the caller
+        return ""
     sh(f"cp {REPO}/Cargo.lock {VERIF}/harness/Cargo.lock")
     logs = []
     for prof in ("", "--release"):
